@@ -92,6 +92,15 @@ def gen_history(ctx: Ctx, rng) -> tuple[list, list]:
             for cid, k, f in (("dp", 3, 3), ("dh", 2, 1), ("dc", 3, 2)):
                 ids.append(cid); ports[cid] = k; free[cid] = f
     steps = rng.randint(5, ctx.n(22, 30))
+    # self-addition and sums double an object: keep the exact model's matrices reportable
+    size = cx.Size(max_w=48, max_loss=8)
+    for op in prog:
+        if op[0] in ("bs", "ps", "loss", "barrier", "swaps"):
+            size.prim(op)
+        elif op[0] == "add":
+            size.add(op[1], op[2])
+        elif op[0] == "copy":
+            size.copy(op[1], op[2])
     for _ in range(steps):
         r = rng.random()
         cid = rng.choice(ids)
@@ -103,7 +112,11 @@ def gen_history(ctx: Ctx, rng) -> tuple[list, list]:
                 m = min(m, p - 1)
             else:
                 m = rng.choice([-1, p, p + 1, max(0, p - q + 1)])
-            prog.append(["add", cid, sid, m, rng.random() < 0.5])
+            if size.add(cid, sid):
+                prog.append(["add", cid, sid, m, rng.random() < 0.5])
+            else:
+                ctx.count("flat:add-skipped(size)")
+                prog.append(size.prim_op(cg.rand_prim_op(rng, cid, ports[cid], p_invalid=0.2)))
         elif r < 0.5 and free[cid] > 0:
             n = ports[cid]
             i, o = rng.randrange(n), rng.randrange(n)
@@ -112,6 +125,9 @@ def gen_history(ctx: Ctx, rng) -> tuple[list, list]:
         elif r < 0.56:
             a, b = rng.choice(ids), rng.choice(ids)
             new = rng.choice([*ids, f"s{len(prog)}"])
+            if not size.plus(new, a, b):
+                ctx.count("flat:plus-skipped(size)")
+                continue
             prog.append(["plus", new, a, b])
             if new not in ports:
                 ids.append(new)
@@ -120,12 +136,13 @@ def gen_history(ctx: Ctx, rng) -> tuple[list, list]:
             src = rng.choice(ids)
             new = f"k{len(prog)}"
             prog.append(["copy", new, src])
+            size.copy(new, src)
             ids.append(new)
             ports[new], free[new] = ports[src], free[src]
         elif r < 0.68:
             prog.append([rng.choice(["compress", "nonadj"]), cid])
         else:
-            prog.append(cg.rand_prim_op(rng, cid, ports[cid], p_invalid=0.2))
+            prog.append(size.prim_op(cg.rand_prim_op(rng, cid, ports[cid], p_invalid=0.2)))
     return prog, ids
 
 
@@ -654,6 +671,9 @@ def run(ctx: Ctx) -> None:
 
 def replay(ctx: Ctx, path: str) -> None:
     data = json.load(open(path))["replay"]
+    if "program" not in data:  # a consumer probe: the probes are fixed constructions, run them all again
+        consumer_probes(ctx, ctx.rng)
+        return
     probs = run_case(ctx, data["program"], data["observe"], data.get("model", True))
     ctx.case("replay", True, sample=data["program"])
     for p in probs:
